@@ -343,7 +343,13 @@ static void scenario(char *toks)
 	pthread_t th[MAXT];
 	store = malloc((size_t)depth * msglen);         /* exactly sized: ASan sees any access beyond it */
 	memset(store, 0xEE, (size_t)depth * msglen);
-	messageq_init(&q, store, (size_t)depth * msglen, msglen);
+	if (msglen & 4) {
+		messageq_init(&q, store, (size_t)depth * msglen, msglen);
+	} else {	/* the other way to make a queue: the static initialiser macro, given expressions as callers give it */
+		size_t len_a = (size_t)depth * msglen / 2, len_b = (size_t)depth * msglen - len_a, ml_a = msglen / 2, ml_b = msglen - ml_a;
+		messageq_t qs = MESSAGEQ_VAR_INIT(store, len_a + len_b, ml_a + ml_b);
+		memcpy(&q, &qs, sizeof q);
+	}
 	mon_reset();
 	steps = 0;
 	sem_init(&sched_sem, 0, 0);
@@ -460,7 +466,13 @@ static void nest_scenario(int held, int levels, int where)
 {
 	store = malloc((size_t)depth * msglen);
 	memset(store, 0xEE, (size_t)depth * msglen);
-	messageq_init(&q, store, (size_t)depth * msglen, msglen);
+	if (msglen & 4) {
+		messageq_init(&q, store, (size_t)depth * msglen, msglen);
+	} else {	/* the other way to make a queue: the static initialiser macro, given expressions as callers give it */
+		size_t len_a = (size_t)depth * msglen / 2, len_b = (size_t)depth * msglen - len_a, ml_a = msglen / 2, ml_b = msglen - ml_a;
+		messageq_t qs = MESSAGEQ_VAR_INIT(store, len_a + len_b, ml_a + ml_b);
+		memcpy(&q, &qs, sizeof q);
+	}
 	mon_reset();
 	nsend = held;
 	nthreads = held + levels;
